@@ -290,8 +290,10 @@ def classify_rr(a, b):
         if info is None:
             return None
         tgt, keys = info
-        if name_problem(tgt):
-            return name_problem(tgt)
+        binfo = D.https_info(brd[1]) if brd[0] == "opaque" else None
+        p = name_problem(tgt, binfo[0] if binfo else None)
+        if p:
+            return p
         return None
     if t in MITM_DECOMPRESS and any(c >= 0xC0 for c in non_name_bytes(rd)):
         # integer / text / opaque RDATA bytes with the two top bits set are taken for compression pointers by unpack
